@@ -32,6 +32,7 @@ def run(chk):
     c20.strict_error_roundtrip(chk, "C02")
     from . import executor_contracts as X
     X.batch_replay_consistency(chk, "C02")
+    X.item_in_child_context(chk, "C02")   # a branch resumed inside the invocation re-runs on a FRESH context: its completed steps are found under the same ids and replayed, not run again with new values
     X.replay_items(chk, "C02")   # the batch rebuilt from records is classified with the SAME completion config as the first run
     c20.strict_payload_decode(chk, "C02")   # the recorded result a replay deserializes is the text that was delivered ('' stays '')
     from . import misc_contracts
